@@ -2,8 +2,8 @@ package c17
 
 import (
 	"bytes"
-	"io"
 	"fmt"
+	"io"
 	"os"
 	"path/filepath"
 	"sync"
